@@ -123,3 +123,20 @@ func init() {
 		return cmd.VerifCollectReports(a.Args, a.Reports, a.EarlyExit), nil
 	})
 }
+
+func init() {
+	register("runCommand", func(raw json.RawMessage) (interface{}, error) {
+		var a struct {
+			Script, WorkDir string
+			TimeoutMs       int
+			Interruptible   bool
+			UseTermCh       bool
+			Events          []cmd.VerifCmdEvent
+			HangLimitMs     int
+		}
+		if err := json.Unmarshal(raw, &a); err != nil {
+			return nil, err
+		}
+		return cmd.VerifRunCommand(a.Script, a.WorkDir, a.TimeoutMs, a.Interruptible, a.UseTermCh, a.Events, a.HangLimitMs), nil
+	})
+}
